@@ -43,7 +43,7 @@ def value_worker(case):
     objs, twins = [], []
     for t in trees:
         a = objcheck.Builder(mod).build(t, [])
-        b = objcheck.Builder(mod).build(t, [])
+        b = objcheck.Builder(mod, reverse_dicts=True).build(t, [])
         n = 0
         for o in mod.visit(a):
             n += 1
@@ -86,6 +86,10 @@ def value_worker(case):
                                       all(getattr(r, f) is getattr(a, f) for f in type(a)._fields[1:]),
                                       objcheck.expand(a) == before,
                                       getattr(r._metadata, 'position_info', None) == a._metadata.position_info]
+                    rn = a._replace(**{f0: None})          # None is a value like any other
+                    r0 = a._replace(**{f0: 0})
+                    ops['replace_none'] = [getattr(rn, f0) is None, getattr(r0, f0) == 0 and getattr(r0, f0) is not None,
+                                           objcheck.expand(a) == before]
                 try:
                     ops['hash'] = [isinstance(hash(a), int), hash(a) == hash(a)]
                 except BaseException as e:  # noqa
